@@ -138,6 +138,27 @@ Theorem C12_codepage_record_skipped :
     wb_globals (Ok (66, d, c) :: rest) sh st = wb_globals rest sh st.
 Proof. exact wb_globals_codepage_any. Qed.
 
+(* a substream nested in a worksheet substream (the chart of an embedded chart object, whose series
+   cache is made of LABEL / NUMBER / ... records) contributes no text cell and its EOF does not
+   end the sheet (the sheet loop counts open substreams since the repair of audit-2 finding XLS-2) *)
+Theorem C12_nested_substream_skipped :
+  forall d0 c0 inner d1 c1 rest tbl fp cells,
+    Forall plain_inner inner ->
+    wb_sheet (Ok (2057, d0, c0) :: inner ++ Ok (10, d1, c1) :: rest) tbl fp cells 1 =
+    wb_sheet rest tbl fp cells 1.
+Proof. exact wb_sheet_nested_skipped. Qed.
+Example C12_nested_substream_nonvacuous :
+  Forall plain_inner [Ok (516, label_body 0 0 15 false [120], None); Ok (515, [], None)] /\
+  wb_sheet (records (frame 2057 (bof_body 16) ++ frame 516 (label_body 0 0 15 false [97])
+                     ++ frame 2057 (bof_body 32) ++ frame 516 (label_body 0 0 15 false [120])
+                     ++ frame 515 [] ++ frame 10 []
+                     ++ frame 516 (label_body 1 0 15 false [98]) ++ frame 10 []))
+           [] (0, 0) [] 0 = Ok [(0, 0, [97]); (1, 0, [98])].
+Proof.
+  split; [|vm_compute; reflexivity].
+  repeat constructor; eexists; eexists; eexists; (split; [reflexivity|split; discriminate]).
+Qed.
+
 (* the decoder state machine of encoding_rs run on the bytes of a unit sequence is UTF-16 decoding;
    fed segment by segment (one decoder per string, as read_dbcs does) and then finished it yields
    the decoding of the whole string; decoding each segment on its own (what read_dbcs did before)
@@ -324,6 +345,8 @@ Print Assumptions C12_sheet_name_ok.
 Print Assumptions C12_record_iter_collects.
 Print Assumptions C12_workbook_strings.
 Print Assumptions C12_codepage_irrelevant.
+Print Assumptions C12_nested_substream_skipped.
+Print Assumptions C12_nested_substream_nonvacuous.
 Print Assumptions C12_codepage_record_skipped.
 Print Assumptions C12_workbook_codepages_nonvacuous.
 Print Assumptions C12_formula_string_any_split.
